@@ -335,3 +335,77 @@ Example as_dict_example :
   snd (as_dict [p; u; x] resolve (AColl [u; x; u]) (sq_init (fun _ => SAvail 7)))
   = Val [(u, AVal 7); (x, ADefault)].
 Proof. reflexivity. Qed.
+
+(* ------------------------------------------------------------------ attrs with elements of any type *)
+Lemma bytes_eqb_eq : forall a b, bytes_eqb a b = true -> a = b.
+Proof.
+  induction a as [|x a IH]; intros [|y b] H; simpl in H; try discriminate; auto.
+  apply andb_prop in H. destruct H as [H1 H2]. apply Z.eqb_eq in H1. subst. f_equal. auto.
+Qed.
+
+(* an element equal (in Python's sense) to an acceptable name is that name *)
+Lemma eqb_valid valid n m : aname_eqb n m = true -> name_valid valid m = true -> name_valid valid n = true.
+Proof.
+  destruct m as [[s| | | | | | |]|l]; simpl; try discriminate. intros He Hv.
+  destruct n as [[s'| | | | | | |]|l']; simpl in He; try discriminate.
+  unfold atom_eqb in He. simpl in He. apply bytes_eqb_eq in He. subst. exact Hv.
+Qed.
+
+Lemma dedup_n_keeps valid : forall l seen n,
+  In n l -> name_valid valid n = false ->
+  exists m, (In m (dedup_n l seen) \/ In m seen) /\ name_valid valid m = false.
+Proof.
+  induction l as [|x r IH]; intros seen n Hin Hv; simpl in Hin; [contradiction|]. simpl.
+  destruct Hin as [->|Hin].
+  - destruct (existsb (aname_eqb n) seen) eqn:E.
+    + apply existsb_exists in E. destruct E as (m & Hm & He). exists m. split; [right; exact Hm|].
+      destruct (name_valid valid m) eqn:Em; auto. rewrite (eqb_valid _ _ _ He Em) in Hv. discriminate.
+    + exists n. split; [left; left; reflexivity|exact Hv].
+  - destruct (existsb (aname_eqb x) seen).
+    + apply (IH seen n); auto.
+    + destruct (IH (x :: seen) n Hin Hv) as (m & [Hm|Hm] & Hmv).
+      * exists m. split; [left; right; exact Hm|exact Hmv].
+      * destruct Hm as [->|Hm]; exists m; (split; [|exact Hmv]); [left; left; reflexivity|right; exact Hm].
+Qed.
+
+(* Any collection containing at least one element that is not an acceptable name -- whatever the
+   types of its elements (str, int, None, bool, bytes, float, NaN, tuple, instances of any class), however
+   many of them are unacceptable, duplicated or mixed with acceptable names -- is rejected with ValueError,
+   and nothing is queried: no block entered, no source read, state untouched.  TypeError stays
+   reserved for a non-collection. *)
+Theorem as_dict_rejects_any_invalid : forall valid resolve q ns n,
+  In n ns -> name_valid valid n = false ->
+  as_dict_any valid resolve (PColl ns) q = (q, Exc ValueError).
+Proof.
+  intros valid resolve q ns n Hin Hv. unfold as_dict_any.
+  destruct (dedup_n_keeps valid ns [] n Hin Hv) as (m & [Hm|[]] & Hmv).
+  assert (E : existsb (fun n0 => negb (name_valid valid n0)) (dedup_n ns []) = true).
+  { apply existsb_exists. exists m. split; auto. rewrite Hmv. reflexivity. }
+  rewrite E. reflexivity.
+Qed.
+
+Theorem as_dict_any_other : forall valid resolve q,
+  as_dict_any valid resolve PNotColl q = (q, Exc TypeError) /\
+  as_dict_any valid resolve PNone q = as_dict valid resolve ANone q /\
+  (forall ns, (forall n, In n ns -> name_valid valid n = true) ->
+     as_dict_any valid resolve (PColl ns) q = as_dict valid resolve (AColl (strs_of (dedup_n ns []))) q).
+Proof.
+  intros valid resolve q. split; [reflexivity|]. split; [reflexivity|]. intros ns Hall. unfold as_dict_any.
+  assert (E : existsb (fun n0 => negb (name_valid valid n0)) (dedup_n ns []) = false).
+  { destruct (existsb (fun n0 => negb (name_valid valid n0)) (dedup_n ns [])) eqn:E; auto.
+    apply existsb_exists in E. destruct E as (m & Hm & Hn). exfalso.
+    assert (Hsub : forall l seen x, In x (dedup_n l seen) -> In x l).
+    { induction l as [|y r IH]; intros seen x Hx; simpl in Hx; [contradiction|].
+      destruct (existsb (aname_eqb y) seen); [right; eapply IH; eauto|].
+      destruct Hx as [->|Hx]; [left; reflexivity|right; eapply IH; eauto]. }
+    apply Hsub in Hm. rewrite (Hall _ Hm) in Hn. discriminate. }
+  rewrite E. reflexivity.
+Qed.
+
+Example as_dict_any_example :
+  let valid := [[110%Z]; [112%Z]] in
+  let resolve := fun _ : bytes => CPid in
+  let q := sq_init (fun _ => SAvail 1) in
+  as_dict_any valid resolve (PColl [NA (EStr [110%Z]); NA (EInt 1); NA ENone; NTuple [EStr [97%Z]]; NA (EFloat 7 2); NA (ENaN 0)]) q
+  = (q, Exc ValueError).
+Proof. reflexivity. Qed.
